@@ -234,10 +234,59 @@ QUICK_FAULT = ["tag_object: first pid of the cid", "tag_object: additional pid o
                "store_object: duplicate content, additional pid"]
 
 
+# heavy jobs are split into 2**bits shards (each follows one side of the first `bits` forks)
+SHARD_BITS = {
+    ("fn", F + "store_object"): (3, 5),
+    ("lemma", "C17/store_object"): 3, ("lemma", "frame/store_object"): 2,
+    ("lemma", "C01/store-then-retrieve"): 2, ("lemma", "C19/one-call-vs-steps"): 2,
+    ("lemma", "inv/store_object"): 2, ("lemma", "C03/store_object-on-bound-pid"): 2,
+    ("lemma", "frame/delete_if_invalid_object"): 1,
+    ("steps", "store_object: new content"): 2,
+    ("steps", "store_object: content present unreferenced"): 2,
+    ("steps", "store_object: duplicate content, additional pid"): 1,
+    ("fault", "store_object: new content"): 3,
+    ("fault", "store_object: content present unreferenced"): 3,
+    ("fault", "store_object: duplicate content, additional pid"): 2,
+    ("fault", "tag_object: first pid of the cid"): 2,
+    ("fault", "tag_object: additional pid of the cid"): 1,
+}
+
+
+def shard(jobs):
+    out = []
+    for j in jobs:
+        bits = SHARD_BITS.get((j[0], j[1]), 0)
+        if j[0] == "fn" and j[2] in ("None", "other-type"):
+            bits = 0
+        if bits:
+            if isinstance(bits, tuple):
+                bits, skip = bits
+            else:
+                skip = 0
+            out += [tuple(j) + (("shard", i, bits, skip),) for i in range(2 ** bits)]
+        else:
+            out.append(tuple(j))
+    return out
+
+
 def jobs_for(prop, all_fn_jobs, tier="quick"):
+    return shard(_jobs_for(prop, all_fn_jobs, tier))
+
+
+# Data kinds: the public calls hand `data` on to _check_arg_data and Stream (whose contracts are
+# proved for all six kinds in their own jobs) and never look at it themselves.  The quick tier
+# therefore runs the big callers for one path-like and one file-like accepted kind plus the two
+# rejected kinds; the thorough tier runs all six.
+QUICK_KINDS = {"str", "BytesIO", "None", "other-type"}
+KIND_SENSITIVE = {F + "store_object", F + "store_metadata", F + "_store_and_validate_data",
+                  F + "_store_data_only", F + "_put_metadata"}
+
+
+def _jobs_for(prop, all_fn_jobs, tier="quick"):
     spec = PROPS[prop]
     wanted = {n for n, _ in spec.get("fns", [])}
-    out = [j for j in all_fn_jobs if j[1] in wanted]
+    out = [j for j in all_fn_jobs if j[1] in wanted
+           and not (tier == "quick" and j[1] in KIND_SENSITIVE and j[2] not in QUICK_KINDS)]
     out += [("lemma", l) for l in spec.get("lemmas", [])]
     out += [("special", s, tier) for s in spec.get("special", [])]
     if spec.get("steps"):
